@@ -161,6 +161,7 @@ class AchievementGroup(ModeDevice):
         if not achievements:
             # there is nothing to rotate
             self.debug_log("Nothing to rotate. Abort.")
+            self._rotation_in_progress = False
             return
 
         try:
@@ -364,6 +365,7 @@ class AchievementGroup(ModeDevice):
         self.disable()
         self._loaded = False
         self._selected_member = None
+        self._rotation_in_progress = False
 
         if self._show:
             self._show.stop()
